@@ -43,7 +43,10 @@ Judge ==
             (IF p.src # R.local.s \/ (n > 0 /\ p.intfs[1].ia # R.local.s) THEN {"path:does-not-start-at-local-as"} ELSE {})
        \cup (IF ~ValidEnd(Rec(p.dst), IA(R.dst), Cores) \/ (n > 0 /\ p.intfs[n].ia # p.dst)
                THEN {"path:does-not-end-at-destination" \o (IF IsWild(IA(R.dst)) THEN "(wildcard)" ELSE "")} ELSE {})
-       \cup (IF p.exp <= R.now0 THEN {"path:expired"} ELSE {})
+       \* tfetch: the instant the last segment reply came back (the start of the lookup if nothing was
+       \* fetched). The expiry filter runs after the segments are there, so whatever is handed out must
+       \* outlive that instant - no margin needed, the order is causal.
+       \cup (IF p.exp <= R.tfetch THEN {"path:expired"} ELSE {})
        \cup (IF \E i \in 1..n : Revoked(RevSet, p.intfs[i].ia, p.intfs[i].id, R.now1) THEN {"path:revoked-interface"} ELSE {})
         keys == IF R.dst.isd = 0 THEN (IF np > 0 THEN {"path:returned-for-isd-0"} ELSE {})
                 ELSE IF isLocal THEN (IF np # 1 \/ (np = 1 /\ (P[1].intfs # <<>> \/ P[1].src # R.local.s \/ P[1].dst # R.local.s))
